@@ -2259,6 +2259,7 @@ def m_string_method(eng, n, st, func, want):
                 base = s1.fields.get((vals[0].region, 'strlen'))
                 s1.fields[(name, 'length')] = (base - vals[0].off) if base is not None else \
                     eng.fresh('len', s1, 'unsigned long')
+                s1.fields[(name, 'source')] = vals[0]
                 content = ('copy', Ptr(name + '.data', 0), vals[0], s1.fields[(name, 'length')])
             elif len(vals) == 1 and isinstance(vals[0], Obj):
                 s1.fields[(name, 'length')] = eng.string_len(s1, vals[0].name)
@@ -2399,9 +2400,30 @@ def m_string_method(eng, n, st, func, want):
                 hit.assume(lt(k, ln))
                 hit.trail.append('%s finds a position' % short)
                 if hit.ok():
+                    if _vals and isinstance(_vals[0], Lin) and _vals[0].is_const() and \
+                            btype(args[0].get('t') or '') == 'char':
+                        # observation fact: the character at the returned position is the one searched for
+                        hit.ghost.append(('cfind', short, ov.name, _vals[0].c, k))
                     out.append((k, hit))
                 s2.trail.append('%s finds nothing' % short)
                 out.append((lin((1 << 64) - 1), s2))
+        elif short == 'erase' and len([a for a in args if not a.get('defarg')]) == 1 and \
+                btype(args[0].get('t') or '') in UBITS:
+            # erase( pos): throws std::out_of_range if pos > size(), else the first pos characters remain
+            ln = eng.string_len(s1, ov.name)
+            for vals, s2 in _ev_all(eng, args[:1], s1, func):
+                if not isinstance(vals[0], Lin):
+                    return None
+                for beyond, s3 in eng.compare('>', vals[0], ln, s2, n, func):
+                    if beyond:
+                        s3.status = 'throw'
+                        s3.thrown = 'std::out_of_range'
+                        out.append((UNKNOWN, s3))
+                        continue
+                    s3.fields[(ov.name, 'length')] = vals[0]
+                    s3.regions[ov.name + '.data'] = vals[0] + 1
+                    eng.add_nul(s3, ov.name + '.data', vals[0])
+                    out.append((ov, s3))
         elif short == 'substr':
             # substr( pos, n): throws std::out_of_range if pos > size(), else min( n, size() - pos) characters
             ln = eng.string_len(s1, ov.name)
